@@ -51,12 +51,18 @@ func c18Cases(tier string, visit func(blkkit.Case)) {
 	}
 }
 
+func c18Caps() blkkit.Caps {
+	c := blkkit.DefaultCaps
+	c.Own = "c18"
+	return c
+}
+
 func seqBlocking(tier string, sh *vkit.Shard, p *vkit.Part) {
-	d := &blkkit.Driver{Part: p, Shard: sh, Class: "c18", Property: "C18", Scenario: blkScenario, Caps: blkkit.DefaultCaps, MaxViolating: 2}
+	d := &blkkit.Driver{Part: p, Shard: sh, Class: "c18", Property: "C18", Scenario: blkScenario, Caps: c18Caps(), MaxViolating: 2}
 	c18Cases(tier, d.Do)
 	d.Finish()
 }
 
 func replayBlocking(scenario string, input json.RawMessage) string {
-	return blkkit.Replay("c18", input, blkkit.DefaultCaps)
+	return blkkit.Replay("c18", input, c18Caps())
 }
